@@ -85,11 +85,12 @@ func runRegCase(c regCase) (res regRes) {
 			res.Note = fmt.Sprint("panic: ", r)
 		}
 	}()
-	l := &Listener{
-		connMap:    map[[handshake.RandomBytesLength]byte](chan net.Conn){},
-		connToCert: map[[handshake.RandomBytesLength]byte]*certPair{},
-		closed:     make(chan struct{}),
+	l, lerr := vNewListener()
+	if lerr != nil {
+		res.Note = lerr.Error()
+		return
 	}
+	defer l.Close()
 	nsec := len(c.Secrets)
 	secrets := make([][]byte, nsec)
 	ids := make([][handshake.RandomBytesLength]byte, nsec)
@@ -102,7 +103,7 @@ func runRegCase(c regCase) (res regRes) {
 			res.Note = err.Error()
 			return
 		}
-		cpairs[i] = &certPair{clientCert: cc, serverCert: sc}
+		cpairs[i] = vCertPair(cc, sc)
 	}
 	na, nc := len(c.Asec), len(c.Csec)
 	res.Ares = make([]int, na)
@@ -127,12 +128,7 @@ func runRegCase(c regCase) (res regRes) {
 		cserver[i] = -1
 	}
 	snapshot := func(o *regObs) {
-		l.connToCertMutex.Lock()
-		o.NCerts = len(l.connToCert)
-		l.connToCertMutex.Unlock()
-		l.connMapMutex.Lock()
-		o.NChans = len(l.connMap)
-		l.connMapMutex.Unlock()
+		o.NCerts, o.NChans = vListenerCounts(l)
 	}
 	collect := func(a int) {
 		r := reals[a]
@@ -207,7 +203,7 @@ func runRegCase(c regCase) (res regRes) {
 				id := ids[c.Asec[a]]
 				switch res.Apc[a] {
 				case 0:
-					if err := l.registerCert(id, cpairs[c.Asec[a]].clientCert, cpairs[c.Asec[a]].serverCert); err != nil {
+					if err := l.registerCert(id, vPairClient(cpairs[c.Asec[a]]), vPairServer(cpairs[c.Asec[a]])); err != nil {
 						res.Ares[a], res.Apc[a] = 1, 5
 					} else {
 						res.Apc[a] = 1
@@ -250,7 +246,7 @@ func runRegCase(c regCase) (res regRes) {
 				if err == nil && cert != nil {
 					if k, ok := cert.PrivateKey.(*ecdsa.PrivateKey); ok {
 						for i := range cpairs {
-							if cpairs[i].serverCert.PrivateKey.(*ecdsa.PrivateKey).D.Cmp(k.D) == 0 {
+							if vPairServer(cpairs[i]).PrivateKey.(*ecdsa.PrivateKey).D.Cmp(k.D) == 0 {
 								cserver[a] = i
 							}
 						}
@@ -263,9 +259,9 @@ func runRegCase(c regCase) (res regRes) {
 				// derives) and verifyConnection finds the client's certificate under the hello-random
 				ok := false
 				if cserver[a] >= 0 &&
-					verifyCert(cpairs[cserver[a]].serverCert.Certificate[0], cpairs[c.Csec[a]].serverCert.Certificate[0]) == nil {
+					verifyCert(vPairServer(cpairs[cserver[a]]).Certificate[0], vPairServer(cpairs[c.Csec[a]]).Certificate[0]) == nil {
 					if certs, err := l.getCert(id); err == nil &&
-						verifyCert(cpairs[c.Csec[a]].clientCert.Certificate[0], certs.clientCert.Certificate[0]) == nil {
+						verifyCert(vPairClient(cpairs[c.Csec[a]]).Certificate[0], vPairClient(certs).Certificate[0]) == nil {
 						ok = true
 					}
 				}
@@ -573,9 +569,7 @@ func runLbCase(c lbCase) (res lbRes) {
 	deadline := time.Now().Add(60 * time.Second)
 	registered := 0
 	for time.Now().Before(deadline) {
-		l.connMapMutex.Lock()
-		registered = len(l.connMap)
-		l.connMapMutex.Unlock()
+		_, registered = vListenerCounts(l)
 		if registered >= first {
 			break
 		}
@@ -584,9 +578,7 @@ func runLbCase(c lbCase) (res lbRes) {
 	if registered < first {
 		res.Note = fmt.Sprintf("setup: only %d of %d accepts registered within 60 s", registered, first)
 	}
-	l.connToCertMutex.Lock()
-	res.NCertsMid = len(l.connToCert)
-	l.connToCertMutex.Unlock()
+	res.NCertsMid, _ = vListenerCounts(l)
 	// phase 2: duplicate accepts, while the first ones are still waiting (they must be refused at once)
 	var dwg sync.WaitGroup
 	for i, a := range c.Accs {
@@ -640,12 +632,7 @@ func runLbCase(c lbCase) (res lbRes) {
 		}(i)
 	}
 	wg.Wait()
-	l.connToCertMutex.Lock()
-	res.NCertsAfter = len(l.connToCert)
-	l.connToCertMutex.Unlock()
-	l.connMapMutex.Lock()
-	res.NChansAfter = len(l.connMap)
-	l.connMapMutex.Unlock()
+	res.NCertsAfter, res.NChansAfter = vListenerCounts(l)
 	return
 }
 
